@@ -274,7 +274,7 @@ def h_lifetime(scn):
 BUSY_STEPS_MS = (250, 400, 900, 1000, 1700)
 
 
-def h_busy(kind):
+def h_busy(kind, n_children=1):
     """the peer crashes; the daemon's REAL main_loop keeps being woken up by unrelated events (select never times out) every `step` (arbitrary among
     BUSY_STEPS_MS): the probe, the retransmissions and the teardown must still happen - IKE_SA and kernel SAs gone within DPD interval + budget"""
     from symx import core
@@ -283,6 +283,9 @@ def h_busy(kind):
     dpd_s = 5
     n = world.Net(dpd=dpd_s, ike_lifetime=360000, lifetime=36000)
     n.establish()
+    for i in range(n_children - 1):
+        n.pump('B', n.acquire('A', sport=9100 + i, dport=23))
+    assert len(n.a.ike_sas[0].child_sas) == n_children and len(n.A.kernel.sad) == 2 * n_children
     c = eng.sym_int('step', 0, len(BUSY_STEPS_MS) - 1)
     step = BUSY_STEPS_MS[eng.concretize(c, 0, len(BUSY_STEPS_MS) - 1) if not isinstance(c, int) else c] / 1000.0
     budget = sum(ik.RETRANSMISSION_DELAY * i for i in range(1, ik.MAX_RETRANSMISSIONS + 1))
@@ -316,6 +319,9 @@ def build_instances(tier):
     nat = common.native_of
     for kind in ('udp_junk', 'xfrm_junk', 'control', 'idle'):
         inst.append(Instance(f'peer crash under steady {kind} events', h_busy, (kind,), native=nat(h_busy), engine_kw={'max_ticks': 10 ** 7},
+                             must_reach=[('torn down', lambda o: o[0] == 'busy')]))
+    for k in (2, 3):
+        inst.append(Instance(f'peer crash, IKE_SA with {k} CHILD_SAs', h_busy, ('idle', k), native=nat(h_busy), engine_kw={'max_ticks': 10 ** 7},
                              must_reach=[('torn down', lambda o: o[0] == 'busy')]))
     k = 6 if tier == 'quick' else 9
     for sit in SITUATIONS:
